@@ -18,9 +18,10 @@ LIB_TARGETS = ["buildblock", "IO", "recon_buildblock", "numerics_buildblock", "l
 
 
 def build(flavour="plain", quiet=False):
-    bdir = os.path.join(VERIF, "build", "stir-" + flavour)
+    broot = os.environ.get("VERIF_BUILD_DIR", os.path.join(VERIF, "build"))
+    bdir = os.path.join(broot, "stir-" + flavour)
     os.makedirs(bdir, exist_ok=True)
-    lock = open(os.path.join(VERIF, "build", ".lock-" + flavour), "w")
+    lock = open(os.path.join(broot, ".lock-" + flavour), "w")
     fcntl.flock(lock, fcntl.LOCK_EX)
     t0 = time.time()
     try:
